@@ -119,7 +119,8 @@ func (state *IntraAnalysisState) DoExtract(x *ssa.Extract) {
 	// how extract interacts with them.
 	isUntrackedTuple := false
 	switch x.Tuple.(type) {
-	case *ssa.Next, *ssa.Select, *ssa.Lookup:
+	case *ssa.Next, *ssa.Select, *ssa.Lookup, *ssa.TypeAssert, *ssa.UnOp:
+		// comma-ok type assertions and channel receives also produce tuples that are not graph nodes
 		isUntrackedTuple = true
 	}
 	if isUntrackedTuple {
